@@ -60,6 +60,14 @@ theorem C20_checksum_gate (pkt : Bytes) (h : Straight.checksum pkt ≠ pkt.getD 
     ∀ f, Wire.decodeUsb pkt ≠ .ok f := by
   intro f hf; exact h (decodeUsb_ok_checksum hf)
 
+/-- what "the checksum" is: the low byte of the sum of bytes 2..18 (all of frame type, format, id,
+length, data and the reserved byte). Stated about the T2 translation of `calculate_canbus_checksum`,
+so a change of the summed range breaks this theorem. -/
+theorem C20_checksum_covers (pkt : Bytes) :
+    Straight.checksum pkt = ((pkt.drop 2).take 17).sum % 256 := by
+  unfold Straight.checksum
+  exact Nat.and_two_pow_sub_one_eq_mod _ 8
+
 -- non-vacuity
 example : Framed (Wire.encodeUsb 0x19F80123 [1, 2, 3]) := by
   refine ⟨by decide +kernel, by decide +kernel, by decide +kernel, by decide +kernel⟩
